@@ -121,7 +121,7 @@ def check(run):
     thorough = run.tier == "thorough"
     specs = systematic()
     r = gen.rng_for(run.seed, "c14")
-    for i in range(1500 if thorough else 250):
+    for i in range(6000 if thorough else 1200):
         s = strgen.build(r, "R%d" % i, ["EnumMessage"], n=r.choice([1, 2, 3, 4, 6, 9]), allow_default=False, allow_prefix=True, allow_default_with=False,
                          generics_pool=(None, None, "T", "a", "aT", "N", "TU"))
         specs.append(decorate(r, s))
